@@ -559,6 +559,10 @@ func (n *networkService) gcPods(ctx context.Context) error {
 
 	uidInLocal := sets.New[string]()
 	for _, podRes := range podResources {
+		if podRes.PodInfo == nil {
+			// a record without pod info can not be matched to a pod
+			continue
+		}
 		if podRes.PodInfo != nil {
 			if podRes.PodInfo.PodUID != "" {
 				uidInLocal.Insert(podRes.PodInfo.PodUID)
@@ -753,6 +757,9 @@ func (n *networkService) Trace() []tracing.MapKeyValueEntry {
 
 	for _, v := range resList {
 		res := v.(daemon.PodResources)
+		if res.PodInfo == nil {
+			continue
+		}
 
 		var resources []string
 		for _, v := range res.Resources {
